@@ -500,6 +500,27 @@ func (w *World) Plant(k int, allowance, collateral types.Currency) {
 	w.Con.Take()
 }
 
+// MarkRenewed records a renewal of the planted contract directly at the contractor, so that the planted
+// contract is no longer revisable (RevisionState.Renewed, !Revisable).
+func (w *World) MarkRenewed() {
+	fc := w.Contract.Revision
+	nc := fc
+	nc.RevisionNumber = 0
+	nc.ProofHeight += 100
+	nc.ExpirationHeight += 100
+	nc.RenterSignature, nc.HostSignature = types.Signature{}, types.Signature{}
+	h := w.CS.ContractSigHash(nc)
+	nc.RenterSignature, nc.HostSignature = w.RenterKey.SignHash(h), w.HostKey.SignHash(h)
+	txn := types.V2Transaction{FileContractResolutions: []types.V2FileContractResolution{{
+		Parent:     types.V2FileContractElement{ID: w.Contract.ID, V2FileContract: fc},
+		Resolution: &types.V2FileContractRenewal{NewContract: nc, FinalRenterOutput: fc.RenterOutput, FinalHostOutput: fc.HostOutput},
+	}}}
+	if err := w.Con.RenewV2Contract(rhp.TransactionSet{Transactions: []types.V2Transaction{txn}}, proto4.Usage{}); err != nil {
+		panic(err)
+	}
+	w.Con.Take()
+}
+
 // Snapshot is the host's durable state for a contract plus balances.
 type Snapshot struct {
 	Revision types.V2FileContract
